@@ -26,8 +26,8 @@ import (
 	"github.com/apache/skywalking-banyandb/pkg/fs"
 	"github.com/apache/skywalking-banyandb/pkg/index"
 	"github.com/apache/skywalking-banyandb/pkg/logger"
-	"github.com/apache/skywalking-banyandb/pkg/pipeline/sdk"
 	pbv1 "github.com/apache/skywalking-banyandb/pkg/pb/v1"
+	"github.com/apache/skywalking-banyandb/pkg/pipeline/sdk"
 	"github.com/apache/skywalking-banyandb/pkg/query/model"
 	"github.com/apache/skywalking-banyandb/pkg/run"
 	"github.com/apache/skywalking-banyandb/pkg/timestamp"
@@ -103,7 +103,7 @@ type C13Cfg struct {
 	Grace      time.Duration // merge grace (also enforced max fragment gap)
 	SegStart   time.Time
 	SegEnd     time.Time
-	ForceSlow  bool // package test seam forceSlowMerge (disables the raw fast path)
+	ForceSlow  bool   // package test seam forceSlowMerge (disables the raw fast path)
 	MemLimit   uint64 // protector memory limit (0: protector.Nop, no limit)
 }
 
